@@ -45,7 +45,8 @@ class C01(Prop):
         "phylip_read_all_total",
         "selexConfigs_valid", "selex_total", "selex_no_fault", "selex_eformat_has_message", "selex_ok_wellformed", "selex_read_all_total",
         "stoConfigs_valid", "stockholm_total", "stockholm_total_rest", "stockholm_no_fault", "stockholm_eformat_has_message", "stockholm_ok_wellformed",
-        "cfgOf_valid", "opened_cfg_valid", "opened_read_good", "guess_no_fault", "open_total", "auto_total", "open_status_documented")] + [
+        "cfgOf_valid", "opened_cfg_valid", "opened_read_good", "guess_no_fault", "open_total", "open_total_fmtd", "auto_total", "open_status_documented")] + [
+        "EaselModel.Msafile.openModelW_zero", "EaselModel.Msafile.openModelW_auto", "EaselModel.Msafile.openModelW_no_fault",
         "EaselModel.Msafile.guessFormat_no_fault", "EaselModel.Msafile.guessAlphabet_no_fault", "EaselModel.Msafile.checkSeqUnknown_no_fault",
         "EaselModel.Msafile.openModel_no_fault", "EaselModel.Msafile.phylipReadW_good",
         "EaselModel.Msafile.stockholmRead_good", "EaselModel.Msafile.stockholmRead_nofault",
@@ -98,9 +99,10 @@ class C01(Prop):
         return {"EaselModel/Msafile/AbcTables.lean": msafile_tables.generate(ctx.src, ctx.work)}
 
     # ------------------------------------------------------------------------------------------
-    def _op(self, data, fmt, abc, src="mem", ps=0, sfx=None):
+    def _op(self, data, fmt, abc, src="mem", ps=0, sfx=None, nw=None):
         s = "parse fmt=%s abc=%s src=%s ps=%d" % (fmt, abc, src, ps)
         if sfx: s += " sfx=" + sfx
+        if nw is not None: s += " nw=%d" % nw
         return s + " hex=" + G.hx(data)
 
     def corpus(self, ctx):
@@ -242,6 +244,24 @@ class C01(Prop):
             stats["kinds"]["nulline"] = stats["kinds"].get("nulline", 0) + 1
             stats["formats"][f] = stats["formats"].get(f, 0) + 1
             out.append({"name": "nulline%d" % len(out), "ops": ops})
+        # 3g. the reader's format option: PHYLIP files written with a name field of width k, opened with an ESL_MSAFILE_FMTDATA whose
+        #     namewidth is k / another width / 0 (unset), declared and autodetected (autodetection forgets the caller's value), text/digital/guess
+        for i in range(180 if quick else 3000):
+            f = ("phylip", "phylips")[i % 2]
+            k = rng.choice([1, 2, 4, 7, 9, 10, 11, 14, 25])
+            a = G.rand_aln(rng, rng.choice(["amino", "dna"]), rng.choice([1, 2, 3, 5, 17]), rng.choice([1, 5, 20, 61, 130]), gapchars="-", maxname=max(k, 1),
+                           namechars="abcdefghijklmnopqrstuvwxyzABCDEFGHIJKLMNOPQRSTUVWXYZ0123456789_")
+            data = G.w_phylip(a, rng, rng.choice(["\n", "\n", "\r\n"]), rng.choice([60, 60, 13]), seq=(f == "phylips"), namew=k).encode("latin-1")
+            if rng.random() < 0.4: data = G.mutate(rng, data, allfiles)
+            nw = rng.choice([k, k, k, 0, 10, k + 1, max(k - 1, 0), 40])
+            abc = rng.choice(["text", "amino", "dna", "guess"])
+            ops = [self._op(data, f, abc, "mem", 0, nw=nw)]
+            r = rng.random()
+            if r < 0.3: ops.append(self._op(data, "auto", abc, "mem", 0, nw=nw))
+            elif r < 0.6: ops.append(self._op(data, f, abc, rng.choice(["stream", "file", "allfile"]), rng.choice([3, 16, 0]), nw=nw))
+            stats["kinds"]["phynw"] = stats["kinds"].get("phynw", 0) + 1
+            stats["formats"][f] = stats["formats"].get(f, 0) + 1
+            out.append({"name": "phynw%d" % len(out), "ops": ops})
         # 4. raw bytes
         for _ in range(n_raw):
             emit("raw", G.raw_bytes(rng), rng.choice(ALL_FORMATS + [None]))
@@ -325,7 +345,7 @@ class C01(Prop):
                 elif t == "leak":
                     return Failure("monitor", "memory leaked while reading (%s)" % what, key=LEAK_KEY)
             # the outcome must not depend on where the bytes come from (C05 tie); suffix-driven autodetection excepted
-            sig = (kv.get("fmt"), kv.get("abc"), kv.get("hex"))
+            sig = (kv.get("fmt"), kv.get("abc"), kv.get("nw"), kv.get("hex"))
             canon = re.sub(r"^open=(\w+):\w+", r"open=\1", l.replace(" leak", ""))   # OpenMem returns no afp on enoformat (message unobservable)
             if kv.get("sfx") is None or kv.get("src") == "mem":
                 if sig in ref and ref[sig][0] != canon and not case.get("sfx"):
